@@ -50,6 +50,10 @@ func genText(t *rapid.T, multiline bool) string {
 		return sb.String()
 	}
 	s := line()
+	if rapid.IntRange(0, 11).Draw(t, "directivelike") == 0 {
+		// text that reads like a tool directive: behind "// " it is an ordinary comment
+		s = rapid.SampledFrom([]string{"go:build ignore", "go:build linux && amd64", "go:generate stringer -type=T", "go:noinline", "go:embed x.txt", "+build linux", "line x.go:10", "export f", "nolint:all", "lint:ignore U1000 x", "go:build ignore is how such files are marked"}).Draw(t, "directive") + s
+	}
 	if multiline {
 		k := rapid.IntRange(1, 3).Draw(t, "nlines")
 		for i := 0; i < k; i++ {
